@@ -315,10 +315,22 @@ def rule_tree(ctx):
           if good is False:
             probs_t.append("T step is not a comprehension over the paired children")
         # T4 carry of the unpaired node
-        odd = any(f_[0] == "cmp" and f_[1] == "Eq" and as_poly(f_[2]) == sym.mk("mod", sym.mk("len", vh), Poly.const(2)) and as_poly(f_[3]) == Poly.const(1)
-                  for f_ in s.facts)
-        notodd = any(f_[0] == "cmp" and f_[1] == "NotEq" and as_poly(f_[2]) == sym.mk("mod", sym.mk("len", vh), Poly.const(2)) and as_poly(f_[3]) == Poly.const(1)
-                     for f_ in s.facts) or any(f_[0] == "cmp" and f_[1] == "Eq" and as_poly(f_[2]) == sym.mk("mod", sym.mk("len", vh), Poly.const(2)) and as_poly(f_[3]) == Poly.const(0) for f_ in s.facts)
+        par = sym.mk("mod", sym.mk("len", vh), Poly.const(2))        # parity of the level: a value in {0, 1}
+        def parity_fact(f_):
+          """1 / 0 when the fact fixes the parity (== 1, != 0, == 0, != 1, either operand order), None otherwise."""
+          if f_[0] in ("truthy", "falsy") and not isinstance(f_[1], Seq) and as_poly(f_[1]) == par:
+            return 1 if f_[0] == "truthy" else 0
+          if f_[0] != "cmp" or f_[1] not in ("Eq", "NotEq") or isinstance(f_[2], Seq) or isinstance(f_[3], Seq):
+            return None
+          x, y = as_poly(f_[2]), as_poly(f_[3])
+          if y == par:
+            x, y = y, x
+          if x != par or y.as_int() not in (0, 1):
+            return None
+          return y.as_int() if f_[1] == "Eq" else 1 - y.as_int()
+        pf = [p_ for p_ in (parity_fact(f_) for f_ in s.facts) if p_ is not None]
+        odd = 1 in pf
+        notodd = 0 in pf
         apps = [e for e in evs if e.kind == "mutate" and isinstance(e.data["target"], ast.Name) and e.data["target"].id == "t"]
         if odd:
           if len(apps) != 1 or apps[0].data["method"] != "append" or as_poly(apps[0].data["args"][0]) != sym.mk("idx", th, Poly.const(-1)):
